@@ -469,9 +469,16 @@ def rewrite_body(body, log, r14=None, mut_refs=None):
         x, recv, pat = mo.groups()
         rest = body[b_close + 1 + tail.end():]
         mc = re.search(r'\blet\s+(mut\s+)?(\w+)\s*=\s*%s\.collect::<Vec<_>>\(\)\s*;' % re.escape(x), rest)
-        if not mc or len(re.findall(r'\b%s\b' % re.escape(x), rest[:mc.start()])) != 0:
+        ms = re.search(r'\b%s\.sum::<(usize|u64|u32)>\(\)' % re.escape(x), rest)
+        if mc and len(re.findall(r'\b%s\b' % re.escape(x), rest[:mc.start()])) == 0:
+            rest = rest[:mc.start()] + 'let %s%s = %s;' % (mc.group(1) or '', mc.group(2), x) + rest[mc.end():]
+        elif ms and len(re.findall(r'\b%s\b' % re.escape(x), rest)) == 1:
+            # R20 (sum form): `X.sum::<T>()` is `Iterator::sum`, i.e. a left fold with `+` from 0 over the
+            # results in index order (overflow checked as for any `+`)
+            rest = (rest[:ms.start()] + '({ let mut sum__: %s = 0; for v__ in %s.iter() { sum__ += *v__; } sum__ })' % (ms.group(1), x)
+                    + rest[ms.end():])
+        else:
             break
-        rest = rest[:mc.start()] + 'let %s%s = %s;' % (mc.group(1) or '', mc.group(2), x) + rest[mc.end():]
         body = (body[:mo.start()] + 'let mut %s = Vec::new(); for %s in %s.iter() { let par_item__ = {%s}; %s.push(par_item__); }'
                 % (x, pat, recv, inner, x) + rest)
         log.append('R20')
